@@ -38,3 +38,510 @@ Theorem mdcrd_layout_current_refuted :
     mdcrd_read_cur HBdetect 2 lines = Er EValue /\
     mdcrd_read_fix HBdetect 2 lines = Ok (map mdcrd_expect wide_field_frames).
 Proof. eexists. split; [vm_compute; reflexivity|]. split; vm_compute; reflexivity. Qed.
+
+(* ================================================================== the repaired reader: round trip *)
+Definition sp_free (s : list ascii) : Prop := Forall (fun c => Ascii.eqb c sp = false) s.
+Definition dots (s : list ascii) : nat := length (filter (fun c => Ascii.eqb c "."%char) s).
+
+Lemma dots_app : forall a b, dots (a ++ b) = (dots a + dots b)%nat.
+Proof. intros. unfold dots. rewrite filter_app, app_length. reflexivity. Qed.
+
+Lemma dots_repeat_sp : forall k, dots (repeat sp k) = 0%nat.
+Proof. induction k; [reflexivity|]. cbn. exact IHk. Qed.
+
+Lemma digs_no_dots : forall k n, dots (digs k n) = 0%nat /\ sp_free (digs k n).
+Proof.
+  intros k n. pose proof (digs_all_digits k n) as F. induction F as [|c l Hc F IH]; [split; [reflexivity|constructor]|].
+  destruct IH as [IH1 IH2]. destruct (is_digit_not_special c Hc) as (A & B & C).
+  split; [unfold dots in *; cbn [filter]; rewrite C; exact IH1|constructor; assumption].
+Qed.
+
+(* the text of a number: sign, digits, point, p digits (no spaces inside, exactly one point when p > 0) *)
+Lemma body_shape : forall p neg q, 0 <= q -> (1 <= p)%nat ->
+  sp_free (body p neg q) /\ dots (body p neg q) = 1%nat /\ body p neg q <> [].
+Proof.
+  intros p neg q Hq Hp.
+  assert (body p neg q <> []) as NE.
+  { intro E. apply (f_equal (@length ascii)) in E. rewrite body_length in E. cbn [length] in E.
+    destruct (ndigits_spec (q / 10 ^ Z.of_nat p)) as (_ & G & _); [apply Z.div_pos; [lia|apply pow10_pos]|]. lia. }
+  split; [|split; [|exact NE]]; unfold body; destruct p as [|p']; try lia.
+  - destruct (digs_no_dots (ndigits (q / 10 ^ Z.of_nat (S p'))) (q / 10 ^ Z.of_nat (S p'))) as [D1 S1].
+    destruct (digs_no_dots (S p') (q mod 10 ^ Z.of_nat (S p'))) as [D2 S2].
+    apply Forall_app. split; [destruct neg; repeat constructor|].
+    apply Forall_app. split; [assumption|]. constructor; [reflexivity|assumption].
+  - destruct (digs_no_dots (ndigits (q / 10 ^ Z.of_nat (S p'))) (q / 10 ^ Z.of_nat (S p'))) as [D1 S1].
+    destruct (digs_no_dots (S p') (q mod 10 ^ Z.of_nat (S p'))) as [D2 S2].
+    rewrite !dots_app. rewrite D1. replace (dots (if neg then ["-"%char] else [])) with 0%nat by (destruct neg; reflexivity).
+    unfold dots in *. cbn [filter]. change (Ascii.eqb "." ".") with true. cbv iota. cbn [length]. rewrite D2. reflexivity.
+Qed.
+
+(* ---------------------------------------------------------------- tokens *)
+Lemma split_tok : forall t r cur, sp_free t -> split_ws_aux (t ++ r) cur = split_ws_aux r (rev t ++ cur).
+Proof.
+  induction t as [|c t IH]; intros r cur H; [reflexivity|]. inversion H as [|c' t' Hc Ht]; subst.
+  cbn [app split_ws_aux]. rewrite Hc. rewrite IH by assumption. cbn [rev]. now rewrite <- app_assoc.
+Qed.
+
+Lemma split_spaces : forall k r, split_ws_aux (repeat sp k ++ r) [] = split_ws_aux r [].
+Proof. induction k; intros r; [reflexivity|]. cbn [repeat app split_ws_aux]. change (Ascii.eqb sp sp) with true. cbv iota. apply IHk. Qed.
+
+(* a padded token followed by a separator / by the end *)
+Lemma split_field_sep : forall k t r, sp_free t -> t <> [] ->
+  split_ws_aux (repeat sp k ++ t ++ sp :: r) [] = t :: split_ws_aux r [].
+Proof.
+  intros k t r Hs Hne. rewrite split_spaces, split_tok by assumption. cbn [split_ws_aux].
+  change (Ascii.eqb sp sp) with true. cbv iota. rewrite app_nil_r.
+  destruct (rev t) eqn:E; [apply (f_equal (@rev ascii)) in E; rewrite rev_involutive in E; cbn in E; congruence|].
+  rewrite <- E, rev_involutive. reflexivity.
+Qed.
+
+Lemma split_field_end : forall k t, sp_free t -> t <> [] ->
+  split_ws_aux (repeat sp k ++ t) [] = [t].
+Proof.
+  intros k t Hs Hne. rewrite <- (app_nil_r t) at 1. rewrite split_spaces, split_tok by assumption. cbn [split_ws_aux].
+  rewrite app_nil_r.
+  destruct (rev t) eqn:E; [apply (f_equal (@rev ascii)) in E; rewrite rev_involutive in E; cbn in E; congruence|].
+  rewrite <- E, rev_involutive. reflexivity.
+Qed.
+
+Lemma py_fmt_split : forall w p x, 0 <= dmag x ->
+  py_fmt w p x = repeat sp (w - length (body p (dneg x) (quant p x))) ++ body p (dneg x) (quant p x).
+Proof. reflexivity. Qed.
+
+Lemma parse_body0 : forall p neg q, 0 <= q -> parse_num (body p neg q) = Some (neg, q, p).
+Proof. intros. apply (parse_body p neg q 0%nat). assumption. Qed.
+
+(* the box line "{:8.3f} {:8.3f} {:8.3f}" splits into its three numbers *)
+Lemma box_line_tokens : forall a b c, 0 <= dmag a -> 0 <= dmag b -> 0 <= dmag c ->
+  map_opt parse_num (split_ws (mdcrd_box_line [a; b; c])) =
+    Some [qnum mdcrd_box_p a; qnum mdcrd_box_p b; qnum mdcrd_box_p c].
+Proof.
+  intros a b c Ha Hb Hc. unfold mdcrd_box_line, split_ws.
+  assert (forall x, 0 <= dmag x -> sp_free (body mdcrd_box_p (dneg x) (quant mdcrd_box_p x)) /\
+                                   body mdcrd_box_p (dneg x) (quant mdcrd_box_p x) <> []) as SH.
+  { intros x Hx. destruct (body_shape mdcrd_box_p (dneg x) (quant mdcrd_box_p x)) as (A & _ & B);
+      [now apply quant_nonneg|unfold mdcrd_box_p; lia|]. now split. }
+  rewrite !py_fmt_split by assumption.
+  destruct (SH a Ha) as [Sa Na]. destruct (SH b Hb) as [Sb Nb]. destruct (SH c Hc) as [Sc Nc].
+  rewrite <- !app_assoc. cbn [app].
+  rewrite split_field_sep by assumption. rewrite split_field_sep by assumption. rewrite split_field_end by assumption.
+  cbn [map_opt]. rewrite !parse_body0 by (now apply quant_nonneg). reflexivity.
+Qed.
+
+(* ---------------------------------------------------------------- counting decimal points *)
+Lemma dots_skip_spaces : forall s, dots (skip_spaces s) = dots s.
+Proof.
+  induction s as [|c s IH]; [reflexivity|]. cbn [skip_spaces].
+  destruct (Ascii.eqb_spec c sp) as [->|]; [rewrite IH; reflexivity|reflexivity].
+Qed.
+
+Lemma all_spaces_dots : forall s, all_spaces s = true -> dots s = 0%nat.
+Proof.
+  intros s H. unfold all_spaces in H. rewrite <- dots_skip_spaces. destruct (skip_spaces s); [reflexivity|discriminate].
+Qed.
+
+Lemma take_digits_dots : forall s acc cnt a c r, take_digits s acc cnt = (a, c, r) -> dots r = dots s.
+Proof.
+  induction s as [|x s IH]; intros acc cnt a c r H; cbn [take_digits] in H.
+  - injection H as _ _ <-. reflexivity.
+  - destruct (is_digit x) eqn:E.
+    + rewrite (IH _ _ _ _ _ H). destruct (is_digit_not_special x E) as (_ & _ & D).
+      unfold dots. cbn [filter]. now rewrite D.
+    + injection H as _ _ <-. reflexivity.
+Qed.
+
+Lemma dots_cons : forall c s, dots (c :: s) = ((if Ascii.eqb c "."%char then 1 else 0) + dots s)%nat.
+Proof. intros. unfold dots. cbn [filter]. destruct (Ascii.eqb c "."); reflexivity. Qed.
+
+Lemma parse_num_dots : forall t r, parse_num t = Some r -> (dots t <= 1)%nat.
+Proof.
+  intros t r H. unfold parse_num in H. rewrite <- (dots_skip_spaces t).
+  remember (skip_spaces t) as s1. clear Heqs1 t.
+  assert (exists neg s2, split_sign s1 = (neg, s2) /\ dots s2 = dots s1) as (neg & s2 & E & D).
+  { unfold split_sign. destruct s1 as [|c s]; [eexists _, _; split; reflexivity|].
+    destruct (Ascii.eqb_spec c "-"%char) as [->|]; eexists _, _; split; reflexivity. }
+  rewrite E in H. rewrite <- D. clear E D s1.
+  destruct (take_digits s2 0 0%nat) as [[ip ci] s3] eqn:T. rewrite <- (take_digits_dots _ _ _ _ _ _ T).
+  destruct (ci =? 0)%nat; [discriminate|].
+  destruct s3 as [|c s]; [cbn; lia|]. rewrite dots_cons.
+  destruct (Ascii.eqb c "."%char).
+  - destruct (take_digits s ip 0%nat) as [[q cf] s4] eqn:T2. rewrite <- (take_digits_dots _ _ _ _ _ _ T2).
+    destruct (all_spaces s4) eqn:A; [|discriminate]. rewrite (all_spaces_dots _ A). lia.
+  - destruct (all_spaces (c :: s)) eqn:A; [|discriminate]. pose proof (all_spaces_dots _ A) as Z0.
+    rewrite dots_cons in Z0. lia.
+Qed.
+
+Lemma dots_concat_split : forall s cur, sp_free cur ->
+  dots (concat (split_ws_aux s cur)) = (dots s + dots cur)%nat.
+Proof.
+  assert (forall l, dots (rev l) = dots l) as RV.
+  { induction l as [|a l IHl]; [reflexivity|]. cbn [rev]. rewrite dots_app, IHl, !dots_cons.
+    change (dots []) with 0%nat. lia. }
+  induction s as [|c s IH]; intros cur Hc; cbn [split_ws_aux].
+  - destruct cur; [reflexivity|]. cbn [concat]. rewrite app_nil_r. rewrite RV. reflexivity.
+  - destruct (Ascii.eqb_spec c sp) as [->|Hn].
+    + rewrite dots_cons. change (Ascii.eqb sp ".") with false. cbv iota.
+      destruct cur as [|x cur]; [rewrite IH by constructor; reflexivity|].
+      cbn [concat]. rewrite dots_app, RV, IH by constructor. cbn [dots filter length]. lia.
+    + rewrite IH by (constructor; [apply Ascii.eqb_neq; assumption|assumption]).
+      rewrite !dots_cons. lia.
+Qed.
+
+(* ---------------------------------------------------------------- one field, one line *)
+(* f is the checked 8.3 field of x *)
+Definition is_field (x : dy) (f : list ascii) : Prop := 0 <= dmag x /\ field mdcrd_w mdcrd_p x = Some f.
+
+Lemma field_facts : forall x f, is_field x f ->
+  length f = mdcrd_rw /\ parse_num f = Some (qnum mdcrd_p x) /\ dots f = 1%nat /\
+  (exists pre c, f = pre ++ [c] /\ Ascii.eqb c sp = false).
+Proof.
+  intros x f [Hm Hf]. destruct (field_sound _ _ _ _ Hm Hf) as [L P].
+  split; [exact L|]. split; [exact P|].
+  unfold field in Hf. destruct (length (py_fmt mdcrd_w mdcrd_p x) =? mdcrd_w)%nat; [|discriminate].
+  injection Hf as <-. rewrite py_fmt_split by assumption.
+  destruct (body_shape mdcrd_p (dneg x) (quant mdcrd_p x)) as (S1 & D1 & N1);
+    [now apply quant_nonneg|unfold mdcrd_p; lia|].
+  split.
+  - rewrite dots_app, dots_repeat_sp, D1. reflexivity.
+  - destruct (exists_last N1) as (pre & c & E). exists (repeat sp (mdcrd_w - length (body mdcrd_p (dneg x) (quant mdcrd_p x))) ++ pre), c.
+    rewrite E. rewrite <- app_assoc. split; [reflexivity|].
+    rewrite E in S1. apply Forall_app in S1. destruct S1 as [_ S1]. now inversion S1.
+Qed.
+
+Lemma rstrip_nonspace_end : forall s c, Ascii.eqb c sp = false -> rstrip (s ++ [c]) = s ++ [c].
+Proof.
+  intros s c H. unfold rstrip. rewrite rev_app_distr. cbn [rev app skip_spaces]. rewrite H.
+  cbn [rev]. now rewrite rev_involutive.
+Qed.
+
+Lemma firstn_app_len : forall {A} (a b : list A) n, length a = n -> firstn n (a ++ b) = a.
+Proof. intros A a b n <-. rewrite firstn_app, Nat.sub_diag, firstn_all. cbn. now rewrite app_nil_r. Qed.
+
+Lemma skipn_app_len : forall {A} (a b : list A) n, length a = n -> skipn n (a ++ b) = b.
+Proof. intros A a b n <-. rewrite skipn_app, Nat.sub_diag, skipn_all. reflexivity. Qed.
+
+Lemma col_fields_concat : forall w fs fuel, (1 <= w)%nat -> Forall (fun f => length f = w) fs ->
+  (length fs <= fuel)%nat -> col_fields fuel w (concat fs) (w * length fs) = fs.
+Proof.
+  intros w fs. induction fs as [|f fs IH]; intros fuel Hw HF Hfu.
+  - cbn. destruct fuel; [reflexivity|]. rewrite Nat.mul_0_r. reflexivity.
+  - inversion HF as [|f' fs' Hf HF']; subst f' fs'. destruct fuel as [|fuel]; [cbn in Hfu; lia|].
+    cbn [col_fields concat length].
+    destruct (w * S (length fs))%nat eqn:E; [lia|]. rewrite <- E.
+    rewrite firstn_app_len, skipn_app_len by assumption.
+    replace (w * S (length fs) - w)%nat with (w * length fs)%nat by lia.
+    rewrite IH; [reflexivity|assumption|assumption|cbn in Hfu; lia].
+Qed.
+
+Lemma map_opt_Forall2 : forall {A B} (f : A -> option B) l r, map_opt f l = Some r -> Forall2 (fun a b => f a = Some b) l r.
+Proof.
+  induction l as [|a l IH]; intros r H; cbn [map_opt] in H.
+  - injection H as <-. constructor.
+  - destruct (f a) eqn:E; [|discriminate]. destruct (map_opt f l) eqn:E2; [|discriminate].
+    injection H as <-. constructor; [assumption|now apply IH].
+Qed.
+
+Lemma Forall2_map_opt : forall {A B} (f : A -> option B) l r, Forall2 (fun a b => f a = Some b) l r -> map_opt f l = Some r.
+Proof. induction 1; cbn [map_opt]; [reflexivity|]. now rewrite H, IHForall2. Qed.
+
+(* a written coordinate line is read back as its numbers *)
+Lemma line_items_fields : forall xs fs, Forall2 is_field xs fs -> fs <> [] ->
+  line_items mdcrd_rw (concat fs) = Some (map (qnum mdcrd_p) xs).
+Proof.
+  intros xs fs H Hne. unfold line_items.
+  assert (Forall (fun f => length f = mdcrd_rw) fs) as HL.
+  { clear Hne. induction H; [constructor|constructor; [apply (field_facts _ _ H)|assumption]]. }
+  assert (rstrip (concat fs) = concat fs) as ->.
+  { destruct (exists_last Hne) as (fs0 & fl & ->). rewrite concat_app. cbn [concat]. rewrite app_nil_r.
+    assert (exists x, is_field x fl) as (x & Hx).
+    { clear HL Hne. revert xs H. induction fs0 as [|a fs0 IH]; intros xs H; inversion H; subst.
+      - eexists; eassumption.
+      - eapply IH; eassumption. }
+    destruct (field_facts _ _ Hx) as (_ & _ & _ & pre & c & -> & Hc).
+    rewrite app_assoc. now apply rstrip_nonspace_end. }
+  assert (length (concat fs) = (mdcrd_rw * length fs)%nat) as ->.
+  { clear H Hne. induction HL as [|f fs Hf HF IH]; [cbn; lia|]. cbn [concat length]. rewrite app_length, IH, Hf. lia. }
+  rewrite col_fields_concat; [|unfold mdcrd_rw; lia|assumption|unfold mdcrd_rw; lia].
+  apply Forall2_map_opt. clear HL Hne. induction H; cbn [map]; [constructor|constructor; [apply (field_facts _ _ H)|assumption]].
+Qed.
+
+(* ---------------------------------------------------------------- the coordinate lines of one frame *)
+Lemma Forall2_firstn : forall {A B} (R : A -> B -> Prop) n l r, Forall2 R l r -> Forall2 R (firstn n l) (firstn n r).
+Proof. intros A B R n. induction n; intros l r H; [constructor|]. destruct H; cbn [firstn]; constructor; auto. Qed.
+
+Lemma Forall2_skipn : forall {A B} (R : A -> B -> Prop) n l r, Forall2 R l r -> Forall2 R (skipn n l) (skipn n r).
+Proof. intros A B R n. induction n; intros l r H; [exact H|]. destruct H; cbn [skipn]; [constructor|auto]. Qed.
+
+Lemma Forall2_length' : forall {A B} (R : A -> B -> Prop) l r, Forall2 R l r -> length l = length r.
+Proof. induction 1; cbn; congruence. Qed.
+
+Lemma read_coords_frame : forall fuel xs fs rest acc,
+  Forall2 is_field xs fs -> fs <> [] -> (length fs <= fuel)%nat ->
+  mdcrd_read_coords (length fs) (map (@concat ascii) (chunks_fuel fuel mdcrd_per_line fs) ++ rest) acc
+  = Ok (Some (acc ++ map (qnum mdcrd_p) xs, rest)).
+Proof.
+  induction fuel; intros xs fs rest acc H Hne Hfu.
+  - destruct fs; [congruence|cbn in Hfu; lia].
+  - destruct fs as [|f0 fs0] eqn:Efs; [congruence|]. rewrite <- Efs in *. clear Efs f0 fs0.
+    assert (chunks_fuel (S fuel) mdcrd_per_line fs = firstn mdcrd_per_line fs :: chunks_fuel fuel mdcrd_per_line (skipn mdcrd_per_line fs)) as ->
+      by (destruct fs; [congruence|reflexivity]).
+    cbn [map app mdcrd_read_coords].
+    pose proof (Forall2_firstn _ mdcrd_per_line _ _ H) as Hf.
+    assert (firstn mdcrd_per_line fs <> []) as Hfne by (destruct fs; [congruence|unfold mdcrd_per_line; cbn; discriminate]).
+    rewrite (line_items_fields _ _ Hf Hfne). rewrite map_length.
+    pose proof (Forall2_length' _ _ _ H) as HL. rewrite firstn_length, HL.
+    assert (1 <= length fs)%nat by (destruct fs; [congruence|cbn; lia]).
+    unfold mdcrd_per_line in *.
+    destruct (le_lt_dec (length fs) 10) as [Hs|Hl].
+    + rewrite Nat.min_r by lia.
+      destruct (Nat.eqb_spec (length fs) 0); [lia|]. destruct (Nat.ltb_spec 10 (length fs)); [lia|]. cbn [orb].
+      rewrite Nat.ltb_irrefl, Nat.eqb_refl.
+      rewrite skipn_all2 by lia. assert (chunks_fuel fuel 10 (@nil (list ascii)) = []) as -> by (destruct fuel; reflexivity).
+      cbn [map app]. rewrite firstn_all2 by lia. reflexivity.
+    + rewrite Nat.min_l by lia. change ((10 =? 0)%nat || (10 <? 10)%nat) with false. cbv iota.
+      destruct (Nat.ltb_spec (length fs) 10); [lia|]. destruct (Nat.eqb_spec (length fs) 10); [lia|].
+      replace (length fs - 10)%nat with (length (skipn 10 fs)) by (rewrite skipn_length; lia).
+      rewrite (IHfuel (skipn 10 xs) (skipn 10 fs) rest (acc ++ map (qnum mdcrd_p) (firstn 10 xs))).
+      * rewrite <- app_assoc, <- map_app, firstn_skipn. reflexivity.
+      * now apply Forall2_skipn.
+      * intro E. apply (f_equal (@length _)) in E. rewrite skipn_length in E. cbn in E. lia.
+      * rewrite skipn_length. lia.
+Qed.
+
+(* the first line of a frame with at least two atoms is never taken for a box line *)
+Lemma peek_coord_line : forall xs fs r hb,
+  Forall2 is_field xs fs -> (4 <= length fs)%nat -> hb <> HBtrue ->
+  mdcrd_peek false hb (concat fs :: r) = Ok (None, concat fs :: r).
+Proof.
+  intros xs fs r hb H Hlen Hhb. unfold mdcrd_peek.
+  assert (dots (concat fs) = length fs) as HD.
+  { clear Hlen. induction H as [|x f xs fs Hx H IH]; [reflexivity|]. cbn [concat length]. rewrite dots_app, IH.
+    destruct (field_facts _ _ Hx) as (_ & _ & D & _). lia. }
+  assert (forall toks nums, map_opt parse_num toks = Some nums -> (dots (concat toks) <= length nums)%nat) as HT.
+  { induction toks as [|t toks IH]; intros nums E; cbn [map_opt] in E.
+    - injection E as <-. cbn. lia.
+    - destruct (parse_num t) eqn:P; [|discriminate]. destruct (map_opt parse_num toks) eqn:M; [|discriminate].
+      injection E as <-. cbn [concat length]. rewrite dots_app. pose proof (parse_num_dots _ _ P). specialize (IH _ eq_refl). lia. }
+  destruct hb; try congruence.
+  - reflexivity.
+  - destruct (map_opt parse_num (split_ws (concat fs))) as [toks|] eqn:M; [|reflexivity].
+    pose proof (HT _ _ M) as B. unfold split_ws in B. rewrite dots_concat_split in B by constructor.
+    cbn [dots filter length] in B. rewrite Nat.add_0_r in B.
+    destruct (Nat.eqb_spec (length toks) 3); [lia|reflexivity].
+Qed.
+
+Lemma peek_eof : forall hb, hb <> HBtrue -> mdcrd_peek false hb [] = Ok (None, []).
+Proof. intros hb H. destruct hb; try congruence; reflexivity. Qed.
+
+Lemma peek_box : forall a b c r hb, 0 <= dmag a -> 0 <= dmag b -> 0 <= dmag c -> hb <> HBfalse ->
+  mdcrd_peek false hb (mdcrd_box_line [a; b; c] :: r) =
+    Ok (Some [qnum mdcrd_box_p a; qnum mdcrd_box_p b; qnum mdcrd_box_p c], r).
+Proof.
+  intros a b c r hb Ha Hb Hc Hhb. unfold mdcrd_peek. destruct hb; try congruence;
+    rewrite box_line_tokens by assumption; reflexivity.
+Qed.
+
+(* ---------------------------------------------------------------- whole files *)
+Definition aframe := (list dy * option (list dy))%type.
+
+Definition frame_wf (n : nat) (f : aframe) : Prop :=
+  length (fst f) = (3 * n)%nat /\ Forall (fun x => 0 <= dmag x) (fst f) /\
+  match snd f with
+  | Some b => exists a b' c, b = [a; b'; c] /\ 0 <= dmag a /\ 0 <= dmag b' /\ 0 <= dmag c
+  | None => True
+  end.
+
+Definition has_box (f : aframe) : Prop := snd f <> None.
+Definition no_box (f : aframe) : Prop := snd f = None.
+
+Lemma frame_lines_shape : forall n cs box l, frame_wf n (cs, box) -> mdcrd_frame_lines cs box = Some l ->
+  exists fs, Forall2 is_field cs fs /\ length fs = (3 * n)%nat /\
+    l = map (@concat ascii) (chunks_fuel (length fs) mdcrd_per_line fs) ++
+        match box with Some b => [mdcrd_box_line b] | None => [] end.
+Proof.
+  intros n cs box l (Hlen & Hpos & _) H. unfold mdcrd_frame_lines in H. cbn [fst] in *.
+  destruct (map_opt (field mdcrd_w mdcrd_p) cs) as [fs|] eqn:E; [|discriminate]. injection H as <-.
+  exists fs. pose proof (map_opt_Forall2 _ _ _ E) as F.
+  assert (Forall2 is_field cs fs) as F2.
+  { clear E Hlen. induction F as [|x f xs fs' Hx F IH]; [constructor|]. inversion Hpos; subst.
+    constructor; [split; assumption|now apply IH]. }
+  split; [exact F2|]. split; [rewrite <- (Forall2_length' _ _ _ F2); exact Hlen|reflexivity].
+Qed.
+
+Lemma first_line_of_file : forall n f frames lr, (1 <= n)%nat -> frame_wf n f -> mdcrd_file_lines (f :: frames) = Some lr ->
+  exists xs fs r, Forall2 is_field xs fs /\ length fs = Nat.min mdcrd_per_line (3 * n) /\ lr = concat fs :: r.
+Proof.
+  intros n [cs box] frames lr Hn Hwf H. cbn [mdcrd_file_lines] in H.
+  destruct (mdcrd_frame_lines cs box) as [l|] eqn:E; [|discriminate].
+  destruct (mdcrd_file_lines frames) as [lr'|]; [|discriminate]. injection H as <-.
+  destruct (frame_lines_shape n cs box l Hwf E) as (fs & F & L & ->).
+  destruct fs as [|f0 fs0] eqn:Efs; [cbn in L; lia|]. rewrite <- Efs in *.
+  assert (chunks_fuel (length fs) mdcrd_per_line fs = firstn mdcrd_per_line fs :: chunks_fuel (pred (length fs)) mdcrd_per_line (skipn mdcrd_per_line fs)) as ->
+    by (rewrite Efs; reflexivity).
+  exists (firstn mdcrd_per_line cs), (firstn mdcrd_per_line fs). eexists.
+  split; [now apply Forall2_firstn|]. split; [rewrite firstn_length, L; reflexivity|]. cbn [map app]. reflexivity.
+Qed.
+
+Lemma read_frames_ok : forall frames n hb lines fuel,
+  (1 <= n)%nat -> Forall (frame_wf n) frames -> mdcrd_file_lines frames = Some lines ->
+  ((Forall has_box frames /\ hb <> HBfalse) \/
+   (Forall no_box frames /\ hb <> HBtrue /\ (hb = HBdetect -> (2 <= n)%nat))) ->
+  (length frames < fuel)%nat ->
+  mdcrd_read_frames fuel false hb n lines = Ok (map mdcrd_expect frames).
+Proof.
+  induction frames as [|[cs box] frames IH]; intros n hb lines fuel Hn Hwf Hl Hbox Hfu.
+  - cbn in Hl. injection Hl as <-. destruct fuel; [lia|]. reflexivity.
+  - destruct fuel as [|fuel]; [lia|]. inversion Hwf as [|f' fr' Hwf1 Hwfr]; subst f' fr'.
+    pose proof Hl as Hl0. cbn [mdcrd_file_lines] in Hl.
+    destruct (mdcrd_frame_lines cs box) as [l|] eqn:E; [|discriminate].
+    destruct (mdcrd_file_lines frames) as [lr|] eqn:Er; [|discriminate]. injection Hl as <-.
+    destruct (frame_lines_shape n cs box l Hwf1 E) as (fs & F & L & ->).
+    cbn [mdcrd_read_frames]. rewrite <- L. rewrite <- app_assoc.
+    rewrite (read_coords_frame (length fs) cs fs); [|assumption|intro Z0; rewrite Z0 in L; cbn in L; lia|lia].
+    cbn [app map mdcrd_expect fst snd].
+    assert (length frames < fuel)%nat as Hfu' by (cbn in Hfu; lia).
+    destruct Hbox as [(HB & Hhb)|(HB & Hhb & Hdet)]; inversion HB as [|f' fr' HB1 HBr]; subst f' fr'.
+    + (* box present *)
+      destruct box as [b|]; [|unfold has_box in HB1; cbn in HB1; congruence].
+      destruct Hwf1 as (_ & _ & (a & b' & c & -> & Ha & Hb & Hc)). cbn [app].
+      rewrite peek_box by assumption.
+      rewrite (IH n hb lr fuel Hn Hwfr eq_refl (or_introl (conj HBr Hhb)) Hfu'). reflexivity.
+    + (* no box *)
+      unfold no_box in HB1. cbn in HB1. subst box. cbn [app].
+      assert (mdcrd_peek false hb lr = Ok (None, lr)) as ->.
+      { destruct frames as [|f1 frames1].
+        - cbn in Er. injection Er as <-. now apply peek_eof.
+        - inversion Hwfr as [|f' fr' Hwf2 _]; subst f' fr'.
+          destruct (first_line_of_file n f1 frames1 lr Hn Hwf2 Er) as (xs1 & fs1 & r1 & F1 & L1 & ->).
+          destruct hb; try congruence; [reflexivity|].
+          eapply peek_coord_line; [eassumption| |congruence].
+          specialize (Hdet eq_refl). rewrite L1. unfold mdcrd_per_line. lia. }
+      rewrite (IH n hb lr fuel Hn Hwfr eq_refl (or_intror (conj HBr (conj Hhb Hdet))) Hfu'). reflexivity.
+Qed.
+
+Lemma file_lines_length : forall n frames lines, (1 <= n)%nat -> Forall (frame_wf n) frames ->
+  mdcrd_file_lines frames = Some lines -> (length frames <= length lines)%nat.
+Proof.
+  induction frames as [|[cs box] frames IH]; intros lines Hn Hwf H; [cbn; lia|].
+  inversion Hwf as [|f' fr' Hwf1 Hwfr]; subst f' fr'. pose proof H as H0. cbn [mdcrd_file_lines] in H.
+  destruct (mdcrd_frame_lines cs box) as [l|] eqn:E; [|discriminate].
+  destruct (mdcrd_file_lines frames) as [lr|] eqn:Er; [|discriminate]. injection H as <-.
+  destruct (first_line_of_file n (cs, box) frames _ Hn Hwf1 H0) as (xs & fs & r & _ & _ & Heq).
+  specialize (IH lr Hn Hwfr eq_refl). rewrite app_length.
+  assert (1 <= length l)%nat.
+  { destruct l as [|x l']; [|cbn; lia]. cbn [app] in Heq.
+    destruct (frame_lines_shape n cs box [] Hwf1 E) as (fs' & _ & L' & E').
+    destruct fs' as [|? ?]; [cbn in L'; lia|]. cbn in E'. discriminate E'. }
+  cbn [length]. lia.
+Qed.
+
+(* The repaired reader returns exactly the quantised numbers of every frame written by the writer:
+   with boxes for every atom count (has_box "detect" or True), without boxes for n_atoms >= 2 under "detect"
+   and for every atom count when has_box = False is given. *)
+Theorem mdcrd_layout : forall n hb frames lines,
+  (1 <= n)%nat -> Forall (frame_wf n) frames -> mdcrd_file_lines frames = Some lines ->
+  ((Forall has_box frames /\ hb <> HBfalse) \/
+   (Forall no_box frames /\ hb <> HBtrue /\ (hb = HBdetect -> (2 <= n)%nat))) ->
+  mdcrd_read_fix hb n lines = Ok (map mdcrd_expect frames).
+Proof.
+  intros n hb frames lines Hn Hwf Hl Hbox. unfold mdcrd_read_fix, mdcrd_read.
+  pose proof (file_lines_length n frames lines Hn Hwf Hl).
+  rewrite (read_frames_ok frames n hb lines (S (length lines))); try assumption; [|lia].
+  assert (boxes_consistent (map mdcrd_expect frames) = true) as ->; [|reflexivity].
+  unfold boxes_consistent. apply orb_true_iff.
+  destruct Hbox as [(HB & _)|(HB & _)]; [right|left]; apply forallb_forall; intros x Hx;
+    apply in_map_iff in Hx; destruct Hx as ([cs box] & <- & Hin); rewrite Forall_forall in HB; specialize (HB _ Hin);
+    unfold has_box, no_box in HB; cbn in *; destruct box; congruence.
+Qed.
+
+(* ================================================================== xyz / lammpstrj tokens *)
+Lemma split_field_any : forall k t r, sp_free t -> t <> [] -> (r = [] \/ exists r', r = sp :: r') ->
+  split_ws_aux (repeat sp k ++ t ++ r) [] = t :: split_ws_aux r [].
+Proof.
+  intros k t r Hs Hne [->|(r' & ->)].
+  - rewrite app_nil_r. now rewrite split_field_end.
+  - now rewrite split_field_sep.
+Qed.
+
+(* " %w.pf %w.pf %w.pf" is read back by str.split() + float() as the three printed numbers *)
+Theorem tok_roundtrip : forall w p xyz, (1 <= p)%nat -> Forall (fun x => 0 <= dmag x) xyz ->
+  tok_read (tok_coords w p xyz) = Some (map (qnum p) xyz).
+Proof.
+  intros w p xyz Hp H. unfold tok_read, tok_coords, split_ws.
+  induction H as [|x xyz Hx H IH]; [reflexivity|].
+  assert (concat (map (fun x0 => sp :: py_fmt w p x0) (x :: xyz)) =
+          repeat sp (S (w - length (body p (dneg x) (quant p x)))) ++ body p (dneg x) (quant p x) ++
+          concat (map (fun x0 => sp :: py_fmt w p x0) xyz)) as ->.
+  { cbn [map concat repeat app]. rewrite py_fmt_split by assumption. now rewrite <- app_assoc. }
+  destruct (body_shape p (dneg x) (quant p x)) as (S1 & _ & N1); [now apply quant_nonneg|assumption|].
+  rewrite split_field_any; [|assumption|assumption|].
+  - cbn [map_opt map]. rewrite parse_body0 by (now apply quant_nonneg). rewrite IH. reflexivity.
+  - destruct xyz as [|y r]; [now left|right]. cbn [map concat]. eexists. reflexivity.
+Qed.
+
+(* ================================================================== gro coordinate columns *)
+Lemma index_from_nodots : forall a r i, dots a = 0%nat ->
+  index_from "."%char (a ++ "."%char :: r) i = Some (i + length a)%nat.
+Proof.
+  induction a as [|c a IH]; intros r i H.
+  - cbn [app index_from length]. change (Ascii.eqb "." ".") with true. cbv iota. f_equal. lia.
+  - rewrite dots_cons in H. cbn [app index_from length].
+    destruct (Ascii.eqb c "."%char); [lia|]. rewrite IH by lia. f_equal. lia.
+Qed.
+
+(* decomposition of a checked field around its decimal point *)
+Lemma field_split : forall w p x f, (1 <= p)%nat -> 0 <= dmag x -> field w p x = Some f ->
+  exists pre frac, f = pre ++ "."%char :: frac /\ dots pre = 0%nat /\ dots frac = 0%nat /\
+                   length frac = p /\ (length pre + 1 + p = w)%nat.
+Proof.
+  intros w p x f Hp Hm Hf. destruct (field_sound _ _ _ _ Hm Hf) as [L _].
+  unfold field in Hf. destruct (length (py_fmt w p x) =? w)%nat; [|discriminate]. injection Hf as <-.
+  rewrite py_fmt_split in * by assumption. unfold body in *. destruct p as [|p']; [lia|].
+  set (ip := quant (S p') x / 10 ^ Z.of_nat (S p')) in *. set (fp := quant (S p') x mod 10 ^ Z.of_nat (S p')) in *.
+  set (k := (w - length ((if dneg x then ["-"%char] else []) ++ digs (ndigits ip) ip ++ "."%char :: digs (S p') fp))%nat) in *.
+  exists (repeat sp k ++ (if dneg x then ["-"%char] else []) ++ digs (ndigits ip) ip), (digs (S p') fp).
+  destruct (digs_no_dots (ndigits ip) ip) as [D1 _]. destruct (digs_no_dots (S p') fp) as [D2 _].
+  repeat split.
+  - now rewrite <- !app_assoc.
+  - rewrite !dots_app, dots_repeat_sp, D1. destruct (dneg x); reflexivity.
+  - exact D2.
+  - apply digs_length.
+  - clearbody k. rewrite !app_length, ?repeat_length in *. cbn [length] in L. rewrite !digs_length in *.
+    lia.
+Qed.
+
+(* three in-range fields of width p+5 are found again by the reader, which takes the field width from the
+   distance between the first two decimal points *)
+Theorem gro_cols_roundtrip : forall p x y z fx fy fz, (1 <= p)%nat ->
+  0 <= dmag x -> 0 <= dmag y -> 0 <= dmag z ->
+  field (p + gro_extra) p x = Some fx -> field (p + gro_extra) p y = Some fy -> field (p + gro_extra) p z = Some fz ->
+  gro_coord_cols p [x; y; z] = fx ++ fy ++ fz /\
+  gro_read_cols (fx ++ fy ++ fz) = Some [qnum p x; qnum p y; qnum p z].
+Proof.
+  intros p x y z fx fy fz Hp Hx Hy Hz Ex Ey Ez.
+  set (w := (p + gro_extra)%nat) in *.
+  destruct (field_sound _ _ _ _ Hx Ex) as [Lx Px]. destruct (field_sound _ _ _ _ Hy Ey) as [Ly Py].
+  destruct (field_sound _ _ _ _ Hz Ez) as [Lz Pz].
+  split.
+  - unfold gro_coord_cols. fold w. cbn [map concat]. rewrite app_nil_r.
+    unfold field in Ex, Ey, Ez.
+    destruct (length (py_fmt w p x) =? w)%nat; [|discriminate]. destruct (length (py_fmt w p y) =? w)%nat; [|discriminate].
+    destruct (length (py_fmt w p z) =? w)%nat; [|discriminate]. congruence.
+  - destruct (field_split _ _ _ _ Hp Hx Ex) as (prex & fracx & -> & Dpx & Dfx & Lfx & Lwx).
+    destruct (field_split _ _ _ _ Hp Hy Ey) as (prey & fracy & -> & Dpy & Dfy & Lfy & Lwy).
+    unfold gro_read_cols.
+    rewrite <- !app_assoc. cbn [app]. rewrite index_from_nodots by assumption. cbn [Nat.add].
+    assert (skipn (S (length prex)) (prex ++ "."%char :: fracx ++ prey ++ "."%char :: fracy ++ fz)
+            = (fracx ++ prey) ++ "."%char :: fracy ++ fz) as ->.
+    { change (prex ++ "."%char :: fracx ++ prey ++ "."%char :: fracy ++ fz)
+        with (prex ++ ["."%char] ++ (fracx ++ prey ++ "."%char :: fracy ++ fz)).
+      rewrite app_assoc. rewrite skipn_app_len by (rewrite app_length; cbn; lia). now rewrite <- app_assoc. }
+    rewrite index_from_nodots by (rewrite dots_app; lia).
+    replace (S (length prex) + length (fracx ++ prey) - length prex)%nat with w by (rewrite app_length; lia).
+    (* put the fields back together and slice *)
+    assert (prex ++ "."%char :: fracx ++ prey ++ "."%char :: fracy ++ fz =
+            (prex ++ "."%char :: fracx) ++ (prey ++ "."%char :: fracy) ++ fz) as -> by (now rewrite <- !app_assoc).
+    cbn [slices]. rewrite firstn_app_len, skipn_app_len by assumption.
+    rewrite firstn_app_len, skipn_app_len by assumption.
+    rewrite <- Lz at 1. rewrite firstn_all. cbn [map_opt]. now rewrite Px, Py, Pz.
+Qed.
